@@ -618,6 +618,11 @@ func c16RunOne(t *testing.T, rng *rand.Rand, tw *vfTraceWriter, trNo int, cfg c1
 			break // a hijacked connection never ends its serve loop the regular way; judged below
 		}
 		if time.Now().After(dl) {
+			if len(s.concurrencyCh) == 0 && running.Load() == 0 && ended < nconns {
+				// every client is done and nothing runs; a connection whose end was not reported through the
+				// hook (its ctx was not given back) is no reason to stop judging what the clients saw
+				break
+			}
 			if running.Load() == 0 && ended == nconns {
 				// every wrapped handler returned long ago, yet its token was never given back
 				windup = fmt.Sprintf("%d token(s) still held 8s after every wrapped handler had returned and every connection had ended", len(s.concurrencyCh))
